@@ -10,10 +10,7 @@ def exchanges():
     """{short sequence name: {"command": (c,i), "replies": [((c,i), final)]}}"""
     if "x" in _cache:
         return _cache["x"]
-    vlib.coq_vo_closure_ok("spec/Spec.v")
-    rc, out = vlib.sh(["coqc", "-q", "-Q", ".", "Zvt", "spec/SpecDump.v"], cwd=vlib.COQ, timeout=600)
-    if rc != 0:
-        raise vlib.MachineryError("SpecDump failed: " + out[-1000:])
+    out = _dump()
     res = {}
     for m in re.finditer(r'\("(\w+)"%string,\s*\((\d+),\s*(\d+)\),\s*\[(.*?)\]\)', out, re.S):
         reps = [((int(a), int(b)), f == "true") for a, b, f in re.findall(r"\(\s*(\d+),\s*(\d+),\s*(true|false)\)", m.group(4))]
@@ -21,6 +18,33 @@ def exchanges():
     if len(res) < 17:
         raise vlib.MachineryError("could not read the specification tables back")
     _cache["x"] = res
+    return res
+
+
+def _dump():
+    if "out" not in _cache:
+        vlib.coq_vo_closure_ok("spec/SpecLayouts.v")
+        rc, out = vlib.sh(["bash", "-c", "ulimit -s unlimited; coqc -q -Q . Zvt spec/SpecDump.v"], cwd=vlib.COQ, timeout=600)
+        if rc != 0:
+            raise vlib.MachineryError("SpecDump failed: " + out[-1000:])
+        _cache["out"] = out
+    return _cache["out"]
+
+
+def layouts():
+    """{rust struct name: {"name", "control", "fields"}} from coq/spec/SpecLayouts.v (same schema as layouts.json)"""
+    if "l" in _cache:
+        return _cache["l"]
+    import json
+    out = _dump()
+    res = {}
+    for m in re.finditer(r'"SPECJSON(.*?[^"])"(?=[;\]])', out, re.S):
+        txt = re.sub(r"\n\s*", " ", m.group(1)).replace('""', '"')
+        d = json.loads(txt)
+        res[d["name"]] = {"name": d["name"], "control": d["control"], "fields": d["layout"]["fields"]}
+    if len(res) < 50:
+        raise vlib.MachineryError("could not read the specification layouts back (%d)" % len(res))
+    _cache["l"] = res
     return res
 
 
